@@ -44,7 +44,7 @@ pub mod shadow_std {
     pub mod fs {
         pub use super::super::simfs::{
             canonicalize, copy, create_dir, create_dir_all, exists, hard_link, metadata, read, read_dir, read_link, read_to_string, remove_dir,
-            remove_dir_all, remove_file, rename, set_permissions, symlink_metadata, write, DirEntry, File, FileType, Metadata, OpenOptions,
+            remove_dir_all, remove_file, rename, set_permissions, symlink_metadata, write, DirBuilder, DirEntry, File, FileType, Metadata, OpenOptions,
             ReadDir,
         };
         pub use ::std::fs::*;
@@ -1984,6 +1984,33 @@ pub mod simfs {
         let n = data.len() as u64;
         write(to, data)?;
         Ok(n)
+    }
+
+    /// `fs::DirBuilder` (round 17, control `w17_r1`: the real one made a real directory in the
+    /// repository - the working-tree guard ended the check with exit 2)
+    #[derive(Debug, Default)]
+    pub struct DirBuilder {
+        recursive: bool,
+    }
+    impl DirBuilder {
+        pub fn new() -> DirBuilder {
+            DirBuilder::default()
+        }
+        pub fn recursive(&mut self, recursive: bool) -> &mut Self {
+            self.recursive = recursive;
+            self
+        }
+        /// `std::os::unix::fs::DirBuilderExt::mode`: permission bits are not modelled
+        pub fn mode(&mut self, _mode: u32) -> &mut Self {
+            self
+        }
+        pub fn create<P: AsRef<ArgPath>>(&self, p: P) -> io::Result<()> {
+            if self.recursive {
+                create_dir_all(p)
+            } else {
+                create_dir(p)
+            }
+        }
     }
 
     /// `fs::hard_link` (round 17, control `w17_r2`: a lock file created by linking a complete
